@@ -531,7 +531,9 @@ func (m *Manager) execute(generic request) reply {
 			return reply{errCanceled, nil}
 		default:
 			f, e := disk.NewChecksumFile(m.toPath(req.id), req.flags)
-			atomic.AddInt64(&m.openFiles, 1)
+			if e == nil {
+				atomic.AddInt64(&m.openFiles, 1)
+			}
 			return reply{e, openReply{f}}
 		}
 	case closeRequest:
@@ -570,7 +572,9 @@ func (m *Manager) execute(generic request) reply {
 	case opendirRequest:
 		defer opm.Start(m.name, "opendir").End()
 		d, e := os.Open(req.dir)
-		atomic.AddInt64(&m.openFiles, 1)
+		if e == nil {
+			atomic.AddInt64(&m.openFiles, 1)
+		}
 		return reply{e, opendirReply{d}}
 	case readdirRequest:
 		defer opm.Start(m.name, "readdir").End()
